@@ -237,7 +237,14 @@ def _overrides(ctx, cfg):
                     and all(got.get(k) == v for k, v in args.items())
             ctx.holds("%s.fit passes every argument through to the base fit" % cls.__name__, ok)
         if cls is not PositiveWaveFunction:
+            # every parameter of every network holds some non-zero value (a state built around a trained module carries
+            # them all, the phase network's auxiliary bias included); no write at all may reach them (version counters)
+            gen = torch.Generator().manual_seed(5)
+            for net in st.networks:
+                for p in getattr(st, net).parameters():
+                    p.data = torch.randn(p.shape, generator=gen, dtype=torch.double) + 0.3
             before = {(net, n): p.detach().clone() for net in st.networks for n, p in getattr(st, net).named_parameters()}
+            vers = {(net, n): p._version for net in st.networks for n, p in getattr(st, net).named_parameters()}
             events = []
             from qucumber.callbacks import LambdaCallback
             cb = LambdaCallback(on_train_start=lambda s: events.append("start"))
@@ -245,7 +252,7 @@ def _overrides(ctx, cfg):
                 st.fit(torch.zeros(4, 2, dtype=torch.double), epochs=1, callbacks=[cb])
                 ctx.holds("%s.fit without input_bases is refused" % cls.__name__, False)
             except ValueError:
-                same = all(torch.equal(p, before[(net, n)]) for net in st.networks for n, p in getattr(st, net).named_parameters())
+                same = all(torch.equal(p, before[(net, n)]) and p._version == vers[(net, n)] for net in st.networks for n, p in getattr(st, net).named_parameters())
                 ctx.holds("%s.fit without input_bases is refused before any event or parameter change" % cls.__name__, same and events == [] and st.stop_training is False)
 
 
